@@ -340,12 +340,12 @@ def case_arith(case, col=None):
     nv = getattr(mag, "nominal_value", mag) * float(f)
     sd = getattr(mag, "std_dev", 0.0) * abs(float(f))
     want_sd = math.sqrt(sum((md.get(i, 0.0) * abs(ms[i]["v"]) * ms[i]["rel"]) ** 2 for i in range(3)))
-    if abs(nv - mv) > 1e-9 * max(abs(mv), abs(nv)) + 1e-9 * _mag_scale(R, t, ms, q):
+    if abs(nv - mv) > 1e-9 * max(abs(mv), abs(nv)) + 1e-9 * _mag_scale(R, t, ms, q) + 100 * _err_bound(R, t, ms, q):
         raise Violation("measurement_arithmetic_nominal", f"{t} on {ms}, {q}: nominal {nv!r} (root units), expected {mv!r}")
     # the std-dev tolerance is relative to the size of the individual contributions (cancellations make the result small)
     contrib = _contrib_scale(R, t, ms, q)
     # (second term: where a sum cancels, the rounding error of the nominal value enters the derivative of an enclosing power or product)
-    if abs(sd - want_sd) > 1e-7 * max(contrib, want_sd) + 1e-9 * _abs_scale(R, t, ms, q) * max(m["rel"] for m in ms) + 1e-300:
+    if abs(sd - want_sd) > 1e-7 * max(contrib, want_sd) + 1e-9 * _abs_scale(R, t, ms, q) * max(m["rel"] for m in ms) + 100 * _max_rel_err(R, t, ms, q) * max(contrib, want_sd) + 1e-300:
         kind = "correlated" if rep else "independent"
         raise Violation(f"measurement_arithmetic_std_dev:{kind}", f"{t} on {ms}, {q}: std_dev {sd!r} (root units), first-order propagation gives {want_sd!r}")
     if nmeas and hasattr(r, "_units") and type(r).__name__ != "Measurement" and hasattr(mag, "std_dev"):
@@ -391,6 +391,40 @@ def _abs_scale(R, t, ms, q):
         return a / vb if vb else 0.0
     except (Bad, OverflowError, ZeroDivisionError):
         return 0.0
+
+
+def _err_bound(R, t, ms, q, eps=2e-15):
+    """first-order bound on the float rounding error of the nominal value (root units): errors of cancelling sums are amplified by the
+    divisions and powers that enclose them (1 / (q + (m - q)) with m = 1e-9 q is only good to 1e-7)"""
+    try:
+        v = abs(eval_model(R, t, ms, q)[0])
+        if t[0] in ("m", "q", "n"):
+            return eps * v
+        if t[0] == "neg":
+            return _err_bound(R, t[1], ms, q, eps)
+        if t[0] == "pow":
+            a = abs(eval_model(R, t[1], ms, q)[0])
+            ea = _err_bound(R, t[1], ms, q, eps)
+            return (abs(t[2]) * v / a * ea if a else 0.0) + eps * v
+        a, b = abs(eval_model(R, t[2], ms, q)[0]), abs(eval_model(R, t[3], ms, q)[0])
+        ea, eb = _err_bound(R, t[2], ms, q, eps), _err_bound(R, t[3], ms, q, eps)
+        if t[1] in "+-":
+            return ea + eb + eps * max(a, b, v)
+        if t[1] == "*":
+            return a * eb + b * ea + eps * v
+        return (ea / b + a * eb / (b * b) if b else 0.0) + eps * v
+    except (Bad, OverflowError, ZeroDivisionError):
+        return 0.0
+
+
+def _max_rel_err(R, t, ms, q):
+    """largest relative rounding error among the nominal values of all sub-expressions: the derivatives pint propagates are taken at those"""
+    try:
+        v = abs(eval_model(R, t, ms, q)[0])
+        here = _err_bound(R, t, ms, q) / v if v else 0.0
+    except (Bad, OverflowError, ZeroDivisionError):
+        here = 0.0
+    return max([here] + [_max_rel_err(R, c, ms, q) for c in t[1:] if isinstance(c, tuple)])
 
 
 def _contrib_scale(R, t, ms, q):
